@@ -139,10 +139,17 @@ class CompoundQuery(qcore.Query):
         if all(q is qcore.NullQuery for q in subqueries):
             return qcore.NullQuery
 
-        # If there's an unfielded Every inside, then this query is Every
+        # An unfielded Every inside a disjunction makes the whole query Every.
+        # Inside a conjunction it is the neutral element: it can be dropped,
+        # but it must not absorb the other clauses
         if any((isinstance(q, Every) and q.fieldname is None)
                for q in subqueries):
-            return Every()
+            rest = [q for q in subqueries
+                    if not (isinstance(q, Every) and q.fieldname is None)]
+            if (not self.intersect_merge
+                    or all(q is qcore.NullQuery for q in rest)):
+                return Every()
+            subqueries = rest
 
         # Merge ranges and Everys
         everyfields = set()
